@@ -340,3 +340,183 @@ Proof.
   - intros Hr. destruct r as [|w c|]; [contradiction| |]; cbn; (split; [reflexivity|]);
       intros e He; apply in_app_or in He; exact He.
 Qed.
+
+(* ---- no worker is popped unchecked: every pop recorded in the parent's log is of a
+   worker whose exit code was read and found 0 *)
+Definition pops_ok (W : world) (log : list pev) : Prop :=
+  forall w, In (EPop w) log -> code W w = 0%Z.
+
+Lemma popped_ok W t before :
+  (forall j, In j before -> finished W t j = true -> code W (fst j) = 0%Z) ->
+  pops_ok W (popped before (filter (unfinished W t) before)).
+Proof.
+  intros Hz w Hin. unfold popped in Hin. apply in_map_iff in Hin.
+  destruct Hin as (j & Hj & Hin). inversion Hj; subst w. apply filter_In in Hin.
+  destruct Hin as [Hin Hne]. apply Hz; [exact Hin|].
+  destruct (finished W t j) eqn:Ef; [reflexivity|]. exfalso.
+  apply negb_true_iff in Hne. rewrite <- not_true_iff_false in Hne. apply Hne.
+  apply existsb_exists. exists j. split.
+  - apply filter_In. split; [exact Hin|]. unfold unfinished. rewrite Ef. reflexivity.
+  - apply Nat.eqb_refl.
+Qed.
+
+Lemma pops_ok_app W a b : pops_ok W a -> pops_ok W b -> pops_ok W (a ++ b).
+Proof. intros Ha Hb w Hin. apply in_app_or in Hin. destruct Hin; [apply Ha | apply Hb]; assumption. Qed.
+
+Section Pops.
+  Variable winnow : world -> nat -> list job -> wres (list job).
+  Hypothesis Hspec : winnow_spec winnow.
+
+  Lemma wait_pops fuel W b : forall running t log,
+    pops_ok W log ->
+    pops_ok W (match wait_below winnow fuel W b running t log with
+               | inl (_, lg) => lg | inr (_, _, lg) => lg end).
+  Proof.
+    induction fuel as [|f IH]; intros running t log Hlog; cbn [wait_below].
+    - destruct (Nat.ltb _ b); exact Hlog.
+    - destruct (Nat.ltb _ b); [exact Hlog|].
+      pose proof (Hspec W t running) as Hs.
+      destruct (winnow W t running) as [r1|w c]; [|exact Hlog].
+      destruct Hs as [Hr1 Hz]. apply IH. apply pops_ok_app; [exact Hlog|].
+      subst r1. apply popped_ok. exact Hz.
+  Qed.
+
+  Lemma dispatch_pops fuel W n : forall todo running t log,
+    pops_ok W log -> pops_ok W (snd (dispatch_loop winnow fuel W n todo running t log)).
+  Proof.
+    induction todo as [|w0 rest IH]; intros running t log Hlog; cbn [dispatch_loop].
+    - pose proof (wait_pops fuel W 1 running t log Hlog) as H.
+      destruct (wait_below winnow fuel W 1 running t log) as [[r l']|[[r' t'] log']]; exact H.
+    - assert (Hl : pops_ok W (log ++ [EStart w0])).
+      { apply pops_ok_app; [exact Hlog|]. intros w [Hw|[]]. discriminate. }
+      pose proof (wait_pops fuel W n (running ++ [(w0, t)]) t _ Hl) as H.
+      destruct (wait_below winnow fuel W n (running ++ [(w0, t)]) t (log ++ [EStart w0]))
+        as [[r l']|[[r' t'] log']]; [exact H|]. apply IH. exact H.
+  Qed.
+End Pops.
+
+Theorem pool_pops_checked : forall (variant : bool) (W : world) (n k : nat),
+  pops_ok W (snd (if variant then run_pool_dict W n k else run_pool_list W n k)).
+Proof.
+  intros [|] W n k; unfold run_pool_dict, run_pool_list.
+  - apply (dispatch_pops winnow_dict winnow_dict_spec). intros w [].
+  - apply (dispatch_pops winnow_list winnow_list_spec). intros w [].
+Qed.
+
+(* ---- stages as sequences of phases *)
+Lemma run_phases_fail : forall phs pools,
+  length pools = length phs -> (exists r, In r pools /\ r <> POk) ->
+  snd (run_phases phs pools) = false.
+Proof.
+  induction phs as [|pre rest IH]; intros pools Hlen (r & Hin & Hr).
+  - destruct pools; [destruct Hin | discriminate].
+  - destruct pools as [|r0 rs]; [discriminate|]. cbn [run_phases].
+    destruct r0; try reflexivity. cbn. apply IH; [cbn in Hlen; lia|].
+    destruct Hin as [<-|Hin]; [contradiction|]. exists r. split; assumption.
+Qed.
+
+Lemma run_phases_ok : forall phs pools,
+  length pools = length phs -> snd (run_phases phs pools) = true -> forall r, In r pools -> r = POk.
+Proof.
+  induction phs as [|pre rest IH]; intros pools Hlen Hok r Hin.
+  - destruct pools; [destruct Hin | discriminate].
+  - destruct pools as [|r0 rs]; [discriminate|]. cbn [run_phases] in Hok.
+    destruct r0; try discriminate. destruct Hin as [<-|Hin]; [reflexivity|].
+    cbn in Hok. apply (IH rs); [cbn in Hlen; lia | exact Hok | exact Hin].
+Qed.
+
+Lemma run_phases_effects : forall phs pools e,
+  In e (fst (run_phases phs pools)) -> In e (concat phs).
+Proof.
+  induction phs as [|pre rest IH]; intros pools e; cbn [run_phases concat].
+  - intros [].
+  - destruct pools as [|[|w c|] rs]; cbn; intros H; apply in_or_app;
+      try (left; exact H).
+    apply in_app_or in H. destruct H as [H|H]; [left; exact H | right; eapply IH; exact H].
+Qed.
+
+Definition complete_only_in_post (s : stage_desc) : bool :=
+  negb (existsb (seff_eqb SComplete) (concat (sd_phases s))) &&
+  negb (existsb (seff_eqb SComplete) (sd_finally s)).
+
+Lemma seff_eqb_eq a b : seff_eqb a b = true <-> a = b.
+Proof. destruct a, b; cbn; split; intros H; try reflexivity; try discriminate. Qed.
+
+Lemma not_existsb_complete l : existsb (seff_eqb SComplete) l = false -> ~ In SComplete l.
+Proof.
+  intros H Hin. rewrite <- not_true_iff_false in H. apply H. apply existsb_exists.
+  exists SComplete. split; [exact Hin | reflexivity].
+Qed.
+
+Lemma stage_incomplete : forall s pools clean_ok,
+  complete_only_in_post s = true ->
+  snd (run_phases (sd_phases s) pools) = false ->
+  let r := run_stage_desc_c s pools clean_ok in
+  snd (fst r) = false /\ ~ In SComplete (fst (fst r)) /\ snd r <> ENone /\
+  (clean_ok = true -> snd r = EInspector).
+Proof.
+  intros s pools clean_ok Hc Hf. unfold run_stage_desc_c. rewrite Hf.
+  unfold complete_only_in_post in Hc. apply andb_true_iff in Hc. destruct Hc as [H1 H2].
+  apply negb_true_iff in H1, H2.
+  destruct clean_ok; cbn [fst snd]; (split; [reflexivity|]); split.
+  - intros Hin. apply in_app_or in Hin. destruct Hin as [Hin|Hin].
+    + apply run_phases_effects in Hin. exact (not_existsb_complete _ H1 Hin).
+    + exact (not_existsb_complete _ H2 Hin).
+  - split; [discriminate | reflexivity].
+  - intros Hin. apply in_app_or in Hin. destruct Hin as [Hin|Hin].
+    + apply run_phases_effects in Hin. exact (not_existsb_complete _ H1 Hin).
+    + apply filter_In in Hin. destruct Hin as [Hin _]. exact (not_existsb_complete _ H2 Hin).
+  - split; [|discriminate]. destruct (existsb (seff_eqb SCleanScratch) (sd_finally s)); discriminate.
+Qed.
+
+Lemma all_stages_shape : forall s, In s all_stages -> complete_only_in_post s = true.
+Proof.
+  intros s Hin. cbn in Hin.
+  repeat (destruct Hin as [<-|Hin]; [reflexivity|]). destruct Hin.
+Qed.
+
+Definition spec_bound (p : pool_spec) : nat := let '(_, _, n, _) := p in n.
+Definition spec_fails (p : pool_spec) : Prop :=
+  let '(_, W, _, k) := p in exists w, (w < k)%nat /\ code W w <> 0%Z.
+Definition spec_all_zero (p : pool_spec) : Prop :=
+  let '(_, W, _, k) := p in forall w, (w < k)%nat -> code W w = 0%Z.
+
+Lemma pool_result_fail p : (1 <= spec_bound p)%nat -> spec_fails p -> pool_result p <> POk.
+Proof.
+  destruct p as [[[variant W] n] k]. cbn. intros Hn Hf.
+  destruct (pool_raises variant W n k Hn) as (_ & _ & _ & Hex).
+  destruct (Hex Hf) as (w & c & Hr). unfold stage_result in Hr. rewrite Hr. discriminate.
+Qed.
+
+Lemma pool_result_ok p : (1 <= spec_bound p)%nat -> pool_result p = POk -> spec_all_zero p.
+Proof.
+  destruct p as [[[variant W] n] k]. cbn. intros Hn Hr.
+  destruct (pool_raises variant W n k Hn) as (_ & Hok & _). apply Hok. exact Hr.
+Qed.
+
+(* C14 for the stages: a failing worker in any phase => the stage does not complete and the
+   completing effect does not happen; a completed stage => every worker of every phase
+   exited with code 0 *)
+Theorem no_complete_output : forall s specs clean_ok,
+  In s all_stages -> length specs = length (sd_phases s) ->
+  Forall (fun p => (1 <= spec_bound p)%nat) specs ->
+  let r := run_stage_desc_c s (map pool_result specs) clean_ok in
+  ((exists p, In p specs /\ spec_fails p) ->
+     snd (fst r) = false /\ ~ In SComplete (fst (fst r)) /\ snd r <> ENone) /\
+  (snd (fst r) = true -> snd r = ENone /\ forall p, In p specs -> spec_all_zero p).
+Proof.
+  intros s specs clean_ok Hs Hlen Hb r. split.
+  - intros (p & Hp & Hf).
+    destruct (stage_incomplete s (map pool_result specs) clean_ok) as (H1 & H2 & H3 & _);
+      [apply all_stages_shape; exact Hs| |auto].
+    apply run_phases_fail; [rewrite map_length; exact Hlen|].
+    exists (pool_result p). split; [apply in_map; exact Hp|].
+    apply pool_result_fail; [|exact Hf]. rewrite Forall_forall in Hb. apply Hb. exact Hp.
+  - intros Hok. subst r. unfold run_stage_desc_c in *.
+    destruct (snd (run_phases (sd_phases s) (map pool_result specs))) eqn:E.
+    + split; [reflexivity|]. intros p Hp.
+      apply pool_result_ok; [rewrite Forall_forall in Hb; apply Hb; exact Hp|].
+      apply (run_phases_ok (sd_phases s) (map pool_result specs)); [rewrite map_length; exact Hlen | exact E|].
+      apply in_map. exact Hp.
+    + destruct clean_ok; discriminate Hok.
+Qed.
